@@ -1,2 +1,426 @@
 import XmpModel.LoadPost
 import XmpModel.Gen.AllocSites
+/-! Helper lemmas for C03 (model `Xmp.LoadPost`). -/
+namespace Xmp.LoadPost
+open Xmp.Gen.Limits
+
+/-! ## Generated facts -/
+
+/-- relations between the generated limits that the proofs rely on -/
+theorem limits_sane :
+    maxSequences ≤ 0xff ∧ 1 ≤ epiSpdDefault ∧ epiSpdDefault ≤ epiSpdMax ∧ epiSpdMax ≤ 255
+    ∧ xmpMinBpm ≤ epiBpmMax ∧ 1 ≤ xmpMaxEnvPoints ∧ 1 ≤ xmpMaxModLength ∧ xmpMaxModLength ≤ 256 := by decide
+
+open Xmp.Gen.AllocSites in
+/-- (file, kind) classes that allocate a track / sub-instrument object without the
+helpers of loaders/common.c.  Patterns are only ever allocated by the helper. -/
+def allowedBypass : List (String × Kind) :=
+  [ ("loaders/it_load.c", .subinstrument), ("loaders/s3m_load.c", .subinstrument), ("smix.c", .subinstrument),
+    ("loaders/mdl_load.c", .track), ("loaders/mgt_load.c", .track) ]
+
+open Xmp.Gen.AllocSites in
+/-- Every direct allocation site found in the compiled sources belongs to a known
+class, and the three helpers still allocate in loaders/common.c. -/
+theorem allocSites_known :
+    (∀ s ∈ directSites, (s.file, s.kind) ∈ allowedBypass)
+    ∧ (∀ k : Kind, ∃ s ∈ helperSites, s.kind = k ∧ s.file = "loaders/common.c") := by
+  constructor
+  · decide
+  · intro k; cases k <;> decide
+
+/-! ## Basics -/
+
+theorem clampC_ge {x a b : Int} (h : a ≤ b) : a ≤ clampC x a b := by
+  unfold clampC; split
+  · omega
+  · split <;> omega
+
+theorem clampC_le {x a b : Int} (h : a ≤ b) : clampC x a b ≤ b := by
+  unfold clampC; split
+  · omega
+  · split <;> omega
+
+theorem clampC_le_self {x a b : Int} (h : a ≤ x) : clampC x a b ≤ x := by
+  unfold clampC; split
+  · omega
+  · split <;> omega
+
+theorem allBelow_iff {n : Int} {p : Nat → Bool} :
+    allBelow n p = true ↔ ∀ i : Nat, (i : Int) < n → p i = true := by
+  unfold allBelow
+  rw [List.all_eq_true]
+  constructor
+  · intro h i hi
+    apply h; rw [List.mem_range]; omega
+  · intro h i hi
+    rw [List.mem_range] at hi
+    apply h; omega
+
+theorem allBelow_mono {n n' : Int} {p : Nat → Bool} (h : allBelow n p = true) (hn : n' ≤ n) :
+    allBelow n' p = true := by
+  rw [allBelow_iff] at *
+  intro i hi; apply h; omega
+
+end Xmp.LoadPost
+
+namespace Xmp.LoadPost
+open Xmp.Gen.Limits
+
+/-! ## libxmp_scan_sequences -/
+
+theorem getD_set (l : List Nat) (i j v d : Nat) :
+    (l.set i v).getD j d = if i = j ∧ i < l.length then v else l.getD j d := by
+  simp only [List.getD_eq_getElem?_getD, List.getElem?_set]
+  by_cases h : i = j
+  · subst h
+    by_cases h2 : i < l.length
+    · simp [h2]
+    · simp [h2]
+  · simp [h]
+
+theorem markOne_length (len ep chain : Nat) (ctl : List Nat) (ord : Nat) :
+    (markOne len ep chain ctl ord).length = ctl.length := by
+  unfold markOne
+  split
+  · split
+    · rfl
+    · simp
+  · rfl
+
+theorem markOne_nonfree {len ep chain : Nat} (hc : chain ≠ 0xff) (ctl : List Nat) (ord o : Nat)
+    (h : ctl.getD o 0xff ≠ 0xff) : (markOne len ep chain ctl ord).getD o 0xff ≠ 0xff := by
+  unfold markOne
+  split
+  · split
+    · exact h
+    · rw [getD_set]; split
+      · exact hc
+      · exact h
+  · exact h
+
+theorem foldl_markOne_length (len ep chain : Nat) (marks : List Nat) :
+    ∀ ctl : List Nat, (marks.foldl (markOne len ep chain) ctl).length = ctl.length := by
+  induction marks with
+  | nil => intro ctl; rfl
+  | cons a rest ih => intro ctl; simp only [List.foldl_cons]; rw [ih, markOne_length]
+
+theorem foldl_markOne_nonfree {len ep chain : Nat} (hc : chain ≠ 0xff) (marks : List Nat) (o : Nat) :
+    ∀ ctl : List Nat, ctl.getD o 0xff ≠ 0xff → (marks.foldl (markOne len ep chain) ctl).getD o 0xff ≠ 0xff := by
+  induction marks with
+  | nil => intro ctl h; exact h
+  | cons a rest ih => intro ctl h; simp only [List.foldl_cons]; exact ih _ (markOne_nonfree hc ctl a o h)
+
+theorem applyScan_length (len ep chain : Nat) (ctl : List Nat) (r : ScanRes) :
+    (applyScan len ep chain ctl r).length = ctl.length := foldl_markOne_length _ _ _ _ _
+
+theorem applyScan_nonfree {len ep chain : Nat} (hc : chain ≠ 0xff) (ctl : List Nat) (r : ScanRes) (o : Nat)
+    (h : ctl.getD o 0xff ≠ 0xff) : (applyScan len ep chain ctl r).getD o 0xff ≠ 0xff :=
+  foldl_markOne_nonfree hc _ _ _ h
+
+/-- the entry point of a scan is marked by it (it is free, or the scan is the first one) -/
+theorem applyScan_marks_ep {len ep chain : Nat} (hc : chain ≠ 0xff) (ctl : List Nat) (r : ScanRes)
+    (hep : ep < len) (hlen : ep < ctl.length) (hfree : ep = 0 ∨ ctl.getD ep 0xff = 0xff) :
+    (applyScan len ep chain ctl r).getD ep 0xff ≠ 0xff := by
+  unfold applyScan
+  simp only [List.foldl_cons]
+  apply foldl_markOne_nonfree hc
+  unfold markOne
+  simp only [hep, if_true]
+  have : ¬ (ep ≠ 0 ∧ ctl.getD ep 0xff ≠ 0xff) := by
+    rcases hfree with h | h
+    · simp [h]
+    · intro hh; exact hh.2 h
+  simp only [this, if_false]
+  rw [getD_set]
+  simp [hlen, hc]
+
+theorem firstFree_some {len : Nat} {ctl : List Nat} {ep : Nat} (h : firstFree len ctl = some ep) :
+    ep < len ∧ ctl.getD ep 0xff = 0xff := by
+  unfold firstFree at h
+  have h1 := List.mem_of_find?_eq_some h
+  have h2 := List.find?_some h
+  rw [List.mem_range] at h1
+  exact ⟨h1, by simpa using h2⟩
+
+theorem firstFree_none {len : Nat} {ctl : List Nat} (h : firstFree len ctl = none) :
+    ∀ o, o < len → ctl.getD o 0xff ≠ 0xff := by
+  unfold firstFree at h
+  rw [List.find?_eq_none] at h
+  intro o ho
+  have := h o (List.mem_range.mpr ho)
+  simpa using this
+
+/-- Invariant of the `while (1)` loop of `libxmp_scan_sequences`. -/
+structure SeqInv (len : Nat) (st : SeqState) : Prop where
+  ctlLen : st.ctl.length = xmpMaxModLength
+  seqPos : 1 ≤ st.seq
+  seqMax : st.seq ≤ maxSequences
+  epsLen : st.eps.length = st.seq
+  timesLen : st.times.length = st.seq
+  epsIn : ∀ e ∈ st.eps, 0 < len → e < len
+  epsMarked : ∀ e ∈ st.eps, e < len → st.ctl.getD e 0xff ≠ 0xff
+  timesNN : ∀ t ∈ st.times, 0 ≤ t
+  nodup : st.eps.Nodup
+
+theorem seqLoop_inv (scan : Nat → ScanRes) (len : Nat) (hlen : len ≤ xmpMaxModLength) :
+    ∀ (fuel : Nat) (st : SeqState), SeqInv len st → SeqInv len (seqLoop scan len fuel st) := by
+  intro fuel
+  induction fuel with
+  | zero => intro st h; exact h
+  | succ fuel ih =>
+    intro st inv
+    unfold seqLoop
+    split
+    · exact inv
+    · rename_i ep hff
+      obtain ⟨hep, hfree⟩ := firstFree_some hff
+      split
+      · rename_i hseq
+        have hc : st.seq ≠ 0xff := by
+          have := limits_sane.1; omega
+        have hepl : ep < st.ctl.length := by rw [inv.ctlLen]; omega
+        simp only
+        split
+        · rename_i htime
+          apply ih
+          constructor <;> simp only
+          · rw [applyScan_length]; exact inv.ctlLen
+          · omega
+          · omega
+          · rw [List.length_append, inv.epsLen]; rfl
+          · rw [List.length_append, inv.timesLen]; rfl
+          · intro e he hl
+            rcases List.mem_append.mp he with h | h
+            · exact inv.epsIn e h hl
+            · simp at h; omega
+          · intro e he hl
+            rcases List.mem_append.mp he with h | h
+            · exact applyScan_nonfree hc _ _ _ (inv.epsMarked e h hl)
+            · simp at h; subst h
+              exact applyScan_marks_ep hc _ _ hep hepl (Or.inr hfree)
+          · intro t ht
+            rcases List.mem_append.mp ht with h | h
+            · exact inv.timesNN t h
+            · simp at h; omega
+          · rw [List.nodup_append]
+            refine ⟨inv.nodup, by simp, ?_⟩
+            intro a ha b hb
+            simp at hb; subst hb
+            intro hab; subst hab
+            exact inv.epsMarked a ha hep hfree
+        · apply ih
+          constructor <;> simp only
+          · rw [applyScan_length]; exact inv.ctlLen
+          · exact inv.seqPos
+          · exact inv.seqMax
+          · exact inv.epsLen
+          · exact inv.timesLen
+          · exact inv.epsIn
+          · intro e he hl
+            exact applyScan_nonfree hc _ _ _ (inv.epsMarked e he hl)
+          · exact inv.timesNN
+          · exact inv.nodup
+      · exact inv
+
+
+theorem cleanup_length (len seq : Nat) (ctl : List Nat) : (cleanup len seq ctl).length = ctl.length := by
+  simp [cleanup]
+
+theorem cleanup_getD (len seq : Nat) (ctl : List Nat) (o : Nat) (ho : o < len) :
+    (cleanup len seq ctl).getD o 0xff = 0xff ∨ (cleanup len seq ctl).getD o 0xff < seq := by
+  simp only [cleanup, List.getD_eq_getElem?_getD, List.getElem?_mapIdx]
+  cases h : ctl[o]? with
+  | none => simp
+  | some c =>
+    simp only [Option.map_some, Option.getD_some, ho, true_and]
+    split
+    · left; rfl
+    · right; omega
+
+theorem ctlInit_length : ctlInit.length = xmpMaxModLength := by simp [ctlInit]
+
+/-- the first scan's state satisfies the loop invariant -/
+theorem init_inv (len : Nat) (hlen : len ≤ xmpMaxModLength) (r0 : ScanRes) (ht : ¬ r0.time < 0) (calls : Nat)
+    (trace : List (Nat × Nat)) :
+    SeqInv len { ctl := applyScan len 0 0 ctlInit r0, seq := 1, eps := [0], times := [r0.time],
+                 calls := calls, trace := trace } := by
+  constructor <;> simp only
+  · rw [applyScan_length, ctlInit_length]
+  · exact Nat.le_refl 1
+  · decide
+  · rfl
+  · rfl
+  · intro e he hl; simp at he; omega
+  · intro e he hl
+    simp at he; subst he
+    exact applyScan_marks_ep (by decide) _ _ hl (by rw [ctlInit_length]; omega) (Or.inl rfl)
+  · intro t h; simp at h; omega
+  · simp
+
+/-- **Bookkeeping of `libxmp_scan_sequences`**, for every behaviour of `scan_module`. -/
+theorem scanCore_spec (scan : Nat → ScanRes) (len : Nat) (hlen : len ≤ xmpMaxModLength) (st : SeqState)
+    (h : scanSequencesCore scan len = .ok st) :
+    1 ≤ st.seq ∧ st.seq ≤ maxSequences ∧ st.eps.length = st.seq ∧ st.times.length = st.seq
+    ∧ (0 < len → ∀ e ∈ st.eps, e < len) ∧ (∀ t ∈ st.times, 0 ≤ t) ∧ st.eps.Nodup
+    ∧ st.ctl.length = xmpMaxModLength
+    ∧ ∀ o, o < len → st.ctl.getD o 0xff = 0xff ∨ st.ctl.getD o 0xff < st.seq := by
+  unfold scanSequencesCore at h
+  simp only at h
+  split at h
+  · cases h
+  · rename_i ht
+    have inv := seqLoop_inv scan len hlen (len + 1) _ (init_inv len hlen (scan 0) ht 1 [(0, 0)])
+    injection h with h
+    subst h
+    simp only
+    refine ⟨inv.seqPos, inv.seqMax, inv.epsLen, inv.timesLen, fun hl e he => inv.epsIn e he hl, inv.timesNN,
+            inv.nodup, ?_, ?_⟩
+    · rw [cleanup_length]; exact inv.ctlLen
+    · intro o ho; exact cleanup_getD _ _ _ o ho
+
+/-! ### Fuel: `len + 1` iterations suffice -/
+
+/-- number of orders `< len` that belong to no scan yet -/
+def freeCount (len : Nat) (ctl : List Nat) : Nat :=
+  ((List.range len).filter fun o => ctl.getD o 0xff == 0xff).length
+
+theorem filter_length_le {α} (l : List α) (p p' : α → Bool) (h : ∀ a, p' a = true → p a = true) :
+    (l.filter p').length ≤ (l.filter p).length := by
+  induction l with
+  | nil => simp
+  | cons x rest ih =>
+    simp only [List.filter_cons]
+    cases hp' : p' x
+    · cases hp : p x <;> simp <;> omega
+    · simp [h x hp']; omega
+
+theorem filter_length_lt {α} (l : List α) (p p' : α → Bool) (h : ∀ a, p' a = true → p a = true)
+    (x : α) (hx : x ∈ l) (h1 : p x = true) (h2 : p' x = false) :
+    (l.filter p').length < (l.filter p).length := by
+  induction l with
+  | nil => simp at hx
+  | cons y rest ih =>
+    simp only [List.filter_cons]
+    rcases List.mem_cons.mp hx with rfl | hm
+    · have := filter_length_le rest p p' h
+      simp [h1, h2]; omega
+    · have := ih hm
+      cases hp' : p' y
+      · cases hp : p y <;> simp <;> omega
+      · simp [h y hp']; omega
+
+theorem freeCount_lt (len : Nat) (ctl ctl' : List Nat) (ep : Nat) (hep : ep < len)
+    (h : ∀ o, ctl.getD o 0xff ≠ 0xff → ctl'.getD o 0xff ≠ 0xff)
+    (h1 : ctl.getD ep 0xff = 0xff) (h2 : ctl'.getD ep 0xff ≠ 0xff) : freeCount len ctl' < freeCount len ctl := by
+  unfold freeCount
+  apply filter_length_lt _ _ _ _ ep (List.mem_range.mpr hep)
+  · simpa using h1
+  · simpa using h2
+  · intro o ho
+    simp only [beq_iff_eq] at *
+    apply Classical.byContradiction
+    intro hne
+    exact h o hne ho
+
+/-- The loop never stops because the fuel ran out: on exit either no order is
+free or `MAX_SEQUENCES` is reached (the two `break` conditions of the C). -/
+theorem seqLoop_exit (scan : Nat → ScanRes) (len : Nat) (hlen : len ≤ xmpMaxModLength) :
+    ∀ (fuel : Nat) (st : SeqState), SeqInv len st → freeCount len st.ctl < fuel →
+      firstFree len (seqLoop scan len fuel st).ctl = none ∨ ¬ (seqLoop scan len fuel st).seq < maxSequences := by
+  intro fuel
+  induction fuel with
+  | zero => intro st _ h; omega
+  | succ fuel ih =>
+    intro st inv hf
+    unfold seqLoop
+    split
+    · rename_i hnone; left; exact hnone
+    · rename_i ep hff
+      obtain ⟨hep, hfree⟩ := firstFree_some hff
+      split
+      · rename_i hseq
+        have hc : st.seq ≠ 0xff := by
+          have := limits_sane.1; omega
+        have hepl : ep < st.ctl.length := by rw [inv.ctlLen]; omega
+        have hlt := freeCount_lt len st.ctl (applyScan len ep st.seq st.ctl (scan st.calls)) ep hep
+          (fun o ho => applyScan_nonfree hc _ _ o ho) hfree
+          (applyScan_marks_ep hc _ _ hep hepl (Or.inr hfree))
+        have hinv := seqLoop_inv scan len hlen 1 st inv
+        unfold seqLoop at hinv
+        simp only [hff, hseq, if_true] at hinv
+        simp only
+        split
+        · rename_i htime
+          simp only [htime, if_true] at hinv
+          unfold seqLoop at hinv
+          exact ih _ hinv (by simp only; omega)
+        · rename_i htime
+          simp only [htime, if_false] at hinv
+          unfold seqLoop at hinv
+          exact ih _ hinv (by simp only; omega)
+      · rename_i hseq; right; exact hseq
+
+theorem freeCount_le (len : Nat) (ctl : List Nat) : freeCount len ctl ≤ len := by
+  unfold freeCount
+  have := List.length_filter_le (fun o => ctl.getD o 0xff == 0xff) (List.range len)
+  simpa using this
+
+
+/-! ## Stage decomposition of `finish` -/
+
+theorem prepareScan_ok {e p : Module} (h : prepareScan e = .ok p) :
+    e.xxp.isSome = true ∧ e.xxt.isSome = true ∧
+    (p = { e with len := 0 } ∨ ((firstValidOrder e : Int) < e.len ∧ negRows e = false ∧ p = { e with xxp := prepareXxp e })) := by
+  unfold prepareScan at h
+  split at h
+  · cases h
+  · rename_i h0
+    have hx : e.xxp.isSome = true ∧ e.xxt.isSome = true := by
+      cases hp : e.xxp <;> cases ht : e.xxt <;> simp [hp, ht] at h0 ⊢
+    refine ⟨hx.1, hx.2, ?_⟩
+    split at h
+    · left; injection h with h; exact h.symm
+    · rename_i h1
+      split at h
+      · cases h
+      · rename_i h2
+        right; injection h with h
+        exact ⟨by omega, by simpa using h2, h.symm⟩
+
+theorem scanSequences_ok {scan : Nat → ScanRes} {p m : Module} (h : scanSequences scan p = .ok m) :
+    ∃ st, scanSequencesCore scan p.len.toNat = .ok st ∧
+      m = { p with numSeq := st.seq, seqData := st.eps.zip st.times, seqCtl := st.ctl } := by
+  unfold scanSequences at h
+  split at h
+  · cases h
+  · rename_i st hst
+    injection h with h
+    exact ⟨st, hst, h.symm⟩
+
+theorem finish_ok {scan : Nat → ScanRes} {raw m : Module} (h : finish scan raw = .ok m) :
+    gate raw = true ∧ ∃ p, prepareScan (epilogue (adjustNames raw)) = .ok p ∧ scanSequences scan p = .ok m := by
+  unfold finish at h
+  split at h
+  · rename_i hg
+    refine ⟨hg, ?_⟩
+    split at h
+    · cases h
+    · rename_i p hp; exact ⟨p, hp, h⟩
+  · cases h
+
+/-- what the gate establishes -/
+theorem gate_spec {m : Module} (h : gate m = true) :
+    m.chn ≤ (xmpMaxChannels : Int) ∧ m.len ≤ (xmpMaxModLength : Int)
+    ∧ (∀ i : Nat, (i : Int) < m.chn → ∃ c, m.xxc[i]? = some c ∧ chanOK c = true)
+    ∧ m.xxp.isSome = true ∧ (∀ i : Nat, (i : Int) < m.pat → m.patOK i = true) := by
+  unfold gate at h
+  simp only [Bool.and_eq_true, Bool.not_eq_true', Bool.or_eq_false_iff, decide_eq_false_iff_not] at h
+  obtain ⟨⟨⟨⟨h1, h2⟩, h3⟩, h4⟩, h5⟩ := h
+  refine ⟨by omega, by omega, ?_, h4, allBelow_iff.mp h5⟩
+  intro i hi
+  have := allBelow_iff.mp h3 i hi
+  cases hc : m.xxc[i]? with
+  | none => simp [hc] at this
+  | some c => exact ⟨c, rfl, by simpa [hc] using this⟩
+
+end Xmp.LoadPost
